@@ -716,12 +716,84 @@ def _unroll_constant_tables(tree):
     return Attr().visit(tree)
 
 
+def _loop_returns_to_flag(tree):
+    """In a function that issues a warning itself, a loop (no `else`) that is left by `return E` becomes the flag idiom:
+        flag = False; for ..: .. [flag = True; ret = E; break] ..; if not flag: <statements after the loop>; return ret
+    Behaviour-preserving (the statements after the loop run exactly when the loop was not left by one of its returns).  It turns
+    'return the converged iterate from inside the loop, warn after it' into the shape the warn-or-converged typestate reasons about.
+    Only loops that are direct statements of the function body are rewritten; returns inside nested loops, try/finally or nested
+    functions leave the loop alone."""
+    counter = [0]
+
+    def own_level_returns(loop):
+        """(returns reachable without entering a nested loop / function / try) and whether any other return exists"""
+        good, other = [], False
+        stack = [(b, False) for b in loop.body]
+        while stack:
+            n, blocked = stack.pop()
+            if isinstance(n, ast.Return):
+                if blocked:
+                    other = True
+                else:
+                    good.append(n)
+                continue
+            if isinstance(n, (ast.FunctionDef, ast.AsyncFunctionDef, ast.Lambda, ast.ClassDef)):
+                continue
+            nb = blocked or isinstance(n, (ast.For, ast.While, ast.AsyncFor, ast.Try))
+            for ch in ast.iter_child_nodes(n):
+                stack.append((ch, nb))
+        return good, other
+
+    def replace(stmts, flag, ret):
+        out = []
+        for st in stmts:
+            if isinstance(st, ast.Return):
+                val = st.value if st.value is not None else ast.Constant(value=None)
+                out.append(ast.copy_location(ast.Assign(targets=[ast.Name(id=flag, ctx=ast.Store())], value=ast.Constant(value=True)), st))
+                out.append(ast.copy_location(ast.Assign(targets=[ast.Name(id=ret, ctx=ast.Store())], value=val), st))
+                out.append(ast.copy_location(ast.Break(), st))
+                continue
+            if not isinstance(st, (ast.For, ast.While, ast.AsyncFor, ast.Try, ast.FunctionDef, ast.AsyncFunctionDef, ast.ClassDef)):
+                for fld in ("body", "orelse"):
+                    b = getattr(st, fld, None)
+                    if isinstance(b, list) and b and isinstance(b[0], ast.stmt):
+                        setattr(st, fld, replace(b, flag, ret))
+            out.append(st)
+        return out
+
+    for fn in [n for n in ast.walk(tree) if isinstance(n, (ast.FunctionDef, ast.AsyncFunctionDef))]:
+        warns = any(isinstance(c, ast.Call) and ast.unparse(c.func) in ("warnings.warn", "warn") for c in _walk_skip_nested(fn))
+        if not warns:
+            continue
+        body = fn.body
+        for i, st in enumerate(body):
+            if isinstance(st, (ast.For, ast.While)) and not st.orelse:
+                good, other = own_level_returns(st)
+                if not good or other:
+                    continue
+                counter[0] += 1
+                flag, ret = "_loopexit%d" % counter[0], "_loopret%d" % counter[0]
+                st.body = replace(st.body, flag, ret)
+                rest = body[i + 1:]
+                init = ast.copy_location(ast.Assign(targets=[ast.Name(id=flag, ctx=ast.Store())], value=ast.Constant(value=False)), st)
+                tail = []
+                if rest:
+                    tail.append(ast.copy_location(ast.If(test=ast.UnaryOp(op=ast.Not(), operand=ast.Name(id=flag, ctx=ast.Load())), body=rest, orelse=[]), rest[0]))
+                last = rest[-1] if rest else st
+                tail.append(ast.copy_location(ast.Return(value=ast.Name(id=ret, ctx=ast.Load())), last))
+                fn.body = body[:i] + [init, st] + tail
+                ast.fix_missing_locations(fn)
+                break
+    return tree
+
+
 def normal_form(tree):
     """the load-time normal form of a module (see DESIGN 2.1b)"""
     tree = _strip_local_annotations(tree)
     tree = _unroll_constant_tables(tree)
     tree = ast.fix_missing_locations(_split_tuple_assigns(_ExprCanon().visit(tree)))
     tree = _forelse_to_flag(tree)
+    tree = _loop_returns_to_flag(tree)
     return _inline_return_temps(_flatten_terminating_ifs(_LoadNormaliser().visit(_sink_result_returns(tree))))
 
 
